@@ -130,6 +130,38 @@ pub fn li_eq_str(a: &[u8], t: &[u8]) -> String {
     }
 }
 
+/// C12: the same logical value reached along different routes must be ==, Equal, hash-equal, print equally
+pub fn li_routes(v: &[u8]) -> String {
+    let r1 = match LanguageIdentifier::from_bytes(v) { Ok(x) => x, Err(_) => return "BADARG".into() };
+    let (l, sc, rg, vs) = r1.clone().into_parts();
+    let r2 = LanguageIdentifier::from_parts(l, sc, rg, &vs);
+    let mut r3 = LanguageIdentifier::default();
+    r3.set_variants(&vs);
+    r3.region = rg;
+    r3.script = sc;
+    r3.language = l;
+    let r4 = match LanguageIdentifier::from_bytes(r1.to_string().as_bytes()) { Ok(x) => x, Err(_) => return "REPARSE-ERR".into() };
+    // detour: start from another identifier and overwrite every field
+    let mut r5: LanguageIdentifier = "ar-Arab-EG-fonipa".parse().unwrap();
+    r5.language = l; r5.script = sc; r5.region = rg;
+    if vs.is_empty() { r5.clear_variants(); } else { let mut w = vs.clone(); w.reverse(); let d = w[0]; w.push(d); r5.set_variants(&w); }
+    let mut r6 = r1.clone();
+    r6.language.clear(); r6.language = l;
+    let mut r7 = r1.clone();
+    r7.set_variants(&[]); r7.set_variants(&vs);
+    let routes = [&r1, &r2, &r3, &r4, &r5, &r6, &r7];
+    for (i, a) in routes.iter().enumerate() {
+        for (j, b) in routes.iter().enumerate() {
+            if a != b { return format!("DIFF == routes {} {}", i + 1, j + 1); }
+            if a.cmp(b) != std::cmp::Ordering::Equal { return format!("DIFF cmp routes {} {}", i + 1, j + 1); }
+            if hash_of(*a) != hash_of(*b) { return format!("DIFF hash routes {} {}", i + 1, j + 1); }
+            if a.to_string() != b.to_string() { return format!("DIFF to_string routes {} {}", i + 1, j + 1); }
+            if format!("{:?}", a) != format!("{:?}", b) { return format!("DIFF debug routes {} {}", i + 1, j + 1); }
+        }
+    }
+    "ALLEQ".into()
+}
+
 fn parse_ops(out: &mut Out, s: &[u8]) {
     out.case("langid", &[s], || langid(s));
     out.case("li_canonicalize", &[s], || li_canonicalize(s));
@@ -168,6 +200,7 @@ pub fn run(out: &mut Out, tier: &str, rng: &mut Rng) {
         let s = gen::render(rng, &toks);
         parse_ops(out, &s);
         out.case("li_into_parts", &[&s], || li_into_parts(&s));
+        out.case("li_routes", &[&s], || li_routes(&s));
         let m = gen::mutate(rng, &s);
         parse_ops(out, &m);
         // from_parts with the variants in a random order, possibly duplicated
